@@ -5,6 +5,7 @@ import (
 	"fmt"
 	"io"
 	"math"
+	"math/bits"
 	"slices"
 	"strconv"
 
@@ -390,8 +391,8 @@ func adjacentQuadrantY(quadrantI int) int {
 	return quadrantI ^ 0b10
 }
 
-// lineIntersects tests whether a line intersects with an extent.
-// TODO this can probably be faster by reusing the edges for the other three quadrants and/or only testing relevant edges (hints)
+// lineIntersects tests whether a (closed) line intersects with an extent
+// of which the right and top edges are exclusive.
 func lineIntersects(intLine intgeom.Line, intExtent intgeom.Extent) bool {
 	// First see if a point is inside (cheap test).
 	pt1IsInsideQuadrant := containsPoint(intLine[0], intExtent)
@@ -400,30 +401,68 @@ func lineIntersects(intLine intgeom.Line, intExtent intgeom.Extent) bool {
 		return true
 	}
 
-	for edgeI, intEdge := range intExtent.Edges(nil) {
-		intersection, intersects := intgeom.SegmentIntersect(intLine, intEdge)
-		// Checking for intersection cq crossing is not enough. The right and top edges are exclusive.
-		// So there are exceptions ...:
-		if intersects { //nolint:nestif
-			if isExclusiveEdge(edgeI) {
-				if intLine[0] == intersection || intLine[1] == intersection {
-					// The tip of a line coming from the outside touches the (exclusive) edge.
-					continue
-				}
-			} else {
-				// The tip of a line coming from the outside touches the exclusive tip of an inclusive edge.
-				exclusivePoint := getExclusiveTip(edgeI, intEdge)
-				if intLine[0] == exclusivePoint || intLine[1] == exclusivePoint {
-					continue
-				}
+	// Exact (integer) test: find the part of the line, as an interval of the parameter t in p1 + t*(p2-p1),
+	// that lies between the borders of the extent on both axes. A border is a fraction num/den (den > 0)
+	// and is strict when it comes from the (exclusive) right or top edge.
+	type border struct {
+		num, den int64
+		strict   bool
+	}
+	from, to := border{0, 1, false}, border{1, 1, false}
+	for ax := xAx; ax <= yAx; ax++ {
+		p := intLine[0][ax]
+		d := intLine[1][ax] - p
+		minOrd, maxOrd := intExtent[ax], intExtent[ax+2]
+		var lower, upper border
+		switch {
+		case d == 0:
+			if p < minOrd || p >= maxOrd {
+				return false
 			}
-			return true
-		} else if !isExclusiveEdge(edgeI) && lineOverlapsInclusiveEdge(intLine, edgeI, intEdge) {
-			// No intersection but overlap on an inclusive edge.
-			return true
+			continue
+		case d > 0:
+			lower, upper = border{minOrd - p, d, false}, border{maxOrd - p, d, true}
+		default:
+			lower, upper = border{p - maxOrd, -d, true}, border{p - minOrd, -d, false}
+		}
+		if c := compareFractions(lower.num, lower.den, from.num, from.den); c > 0 || c == 0 && lower.strict {
+			from = lower
+		}
+		if c := compareFractions(upper.num, upper.den, to.num, to.den); c < 0 || c == 0 && upper.strict {
+			to = upper
 		}
 	}
-	return false
+	c := compareFractions(from.num, from.den, to.num, to.den)
+	return c < 0 || c == 0 && !from.strict && !to.strict
+}
+
+// compareFractions compares n1/d1 with n2/d2 (d1, d2 > 0) without overflowing or rounding
+func compareFractions(n1, d1, n2, d2 int64) int {
+	if (n1 < 0) != (n2 < 0) {
+		if n1 < 0 {
+			return -1
+		}
+		return 1
+	}
+	abs := func(i int64) uint64 {
+		if i < 0 {
+			return uint64(-i)
+		}
+		return uint64(i)
+	}
+	hi1, lo1 := bits.Mul64(abs(n1), uint64(d2))
+	hi2, lo2 := bits.Mul64(abs(n2), uint64(d1))
+	c := 0
+	switch {
+	case hi1 != hi2:
+		c = mathhelp.Bool2int(hi1 > hi2)*2 - 1
+	case lo1 != lo2:
+		c = mathhelp.Bool2int(lo1 > lo2)*2 - 1
+	}
+	if n1 < 0 {
+		return -c
+	}
+	return c
 }
 
 func (ix *PointIndex) GetHitMultiple(l Level) map[intgeom.Point][]int {
@@ -445,48 +484,6 @@ func checkPointHits(ix *PointIndex, vertex intgeom.Point, ringID int, level uint
 		// first hit of this point by any ring
 		levelHitOnce[vertex] = append(levelHitOnce[vertex], ringID)
 	}
-}
-
-func isExclusiveEdge(edgeI int) bool {
-	i := edgeI % 4
-	return i == 1 || i == 2
-}
-
-// getExclusiveTip returns the tip point of an inclusive edge that is not-inclusive
-func getExclusiveTip(edgeI int, edge intgeom.Line) intgeom.Point {
-	i := edgeI % 4
-	if i == 0 {
-		return edge[1]
-	} else if i == 3 {
-		return edge[0]
-	}
-	panic(fmt.Sprintf("not an inclusive edge: %v", edgeI))
-}
-
-// lineOverlapsInclusiveEdge helps to check if a line overlaps an inclusive edge (excluding the exclusive tip)
-func lineOverlapsInclusiveEdge(intLine intgeom.Line, edgeI int, intEdge intgeom.Line) bool {
-	var constAx, varAx int
-	switch {
-	case intEdge[0][xAx] == intEdge[1][xAx]:
-		constAx = xAx
-		varAx = yAx
-	case intEdge[0][yAx] == intEdge[1][yAx]:
-		constAx = yAx
-		varAx = xAx
-	default:
-		panic(fmt.Sprintf("not a straight edge: %v", intEdge))
-	}
-	eConstOrd := intEdge[0][constAx]
-	if intLine[0][constAx] != eConstOrd || intLine[1][constAx] != eConstOrd {
-		return false // not a straight line and/or not on same line as the edge, so no overlap
-	}
-	eOrd1 := intEdge[0][varAx]
-	eOrd2 := intEdge[1][varAx]
-
-	exclusiveTip := getExclusiveTip(edgeI, intEdge)
-	lOrd1 := intLine[0][varAx]
-	lOrd2 := intLine[1][varAx]
-	return lOrd1 != lOrd2 && (mathhelp.IBetweenInc(lOrd1, eOrd1, eOrd2) && intLine[0] != exclusiveTip || mathhelp.IBetweenInc(lOrd2, eOrd1, eOrd2) && intLine[1] != exclusiveTip)
 }
 
 func oneIfRight(quadrantI int) int {
